@@ -64,6 +64,7 @@ class Contract:
         self.notes = []
         self.case_splits = []
         self.logicals = {}        # ghost (universally quantified) parameters: name -> type
+        self.initializes = {}     # constructors: field -> expression over the parameters (post-state)
         self.fuel = 1
         self.timeout = None
 
@@ -74,7 +75,7 @@ class Contract:
 
 _SPEC_CALLS = {"requires", "ensures", "raises", "raises_only", "modifies", "terminates", "loop", "ghost", "local",
                "mode", "returns", "decreases", "cover", "yields", "note", "case_split", "fuel", "timeout", "domain",
-               "logical"}
+               "logical", "initializes"}
 
 
 def _const(node):
@@ -141,6 +142,9 @@ def _parse_body(c, body):
                 c.covers += call.args
             elif f == "domain":
                 c.covers.append(call)
+            elif f == "initializes":
+                for k, v in kw.items():
+                    c.initializes[k] = v
             elif f == "logical":
                 for k, v in kw.items():
                     c.logicals[k] = _const(v)
